@@ -105,8 +105,12 @@ def run_stream(seed, lengths, combos=None, epochs=2):
             combos.append((c, rnd.choice(macs), rnd.random() < 0.3))
         for m in macs:
             combos.append((rnd.choice(ciphers), m, rnd.random() < 0.3))
-    for cipher, mac, comp in combos:
+    for ci, (cipher, mac, comp) in enumerate(combos):
         S, R, pipe = make_pair(rnd, cipher, mac, comp)
+        if ci % 2 == 1:
+            # the receiver has a re-key pending (thresholds crossed): read_all may then raise NeedRekeyException on a
+            # timeout, but only before it has consumed anything of the packet - nothing may be lost when the caller retries
+            R._Packetizer__need_rekey = True
         for ln in lengths:
             body = bytes(rnd.getrandbits(8) for _ in range(max(1, ln)))
             m = Message()
